@@ -38,6 +38,12 @@ def base_streams(seed, tier):
         instrs = [rng.choice(names) for _ in range(4)]
         stack = [G.rand_print_tree(rng, instrs, rng.randrange(0, 7), rng.randrange(1, 40)) for _ in range(rng.choice([1, 1, 1, 2, 3, 0]))]
         cases.append(G.case_prim(k % 2, 5, stack))
+    # long lists and deep stacks: more elements than any print limit someone might introduce
+    for k, n_el in enumerate([999, 1000, 1001, 1002, 1500, 2500] if tier == "quick" else [999, 1000, 1001, 1002, 1024, 1025, 1500, 2500, 4097, 10001]):
+        flat = L(*[rng.choice([Z(i % 7), N("q"), B(i % 2 == 0), I(names[i % len(names)])]) for i in range(n_el)])
+        cases.append(G.case_prim(k % 2, 5, [flat]))
+        cases.append(G.case_prim(k % 2, 5, [L(Z(1), flat, Z(2))]))
+        cases.append(G.case_prim(k % 2, 5, [Z(i % 5) for i in range(n_el)]))
     out.append(Stream("printable-trees", "parse.prim", "parse.prim.check", cases,
                       "random stacks of programs over lists (incl. empty, depth <= 6), i32 (boundaries, negatives), TRUE/FALSE, names (non-ASCII too) and registered instructions: to_string -> parse_program -> structural comparison and to_string again",
                       ))
